@@ -276,7 +276,8 @@ def real_layer(ck, tier, rng):
             if gone_at is None or isinstance(left, str):
                 continue
             pred = mo[0]
-            fits = lambda pr: pr - 0.5 <= gone_at <= pr + 2.5 + (1.0 if job[1] != "kill" else 0)  # noqa
+            # exit / close happen in the helper right after it published the pids, up to 0.6 s BEFORE the clock of this side starts
+            fits = lambda pr: pr - 0.5 - (0.7 if job[1] != "kill" else 0) <= gone_at <= pr + 2.5 + (1.0 if job[1] != "kill" else 0)  # noqa
             if job[3] == "thread" and not fits(pred) and fits(mo_alt[0]):
                 pred = mo_alt[0]
                 ck.count("ladder_body_outside_main_thread")
